@@ -43,6 +43,8 @@ WORKLOADS = {
     "cancel_sor": ("w_cancel.cpp", ()),
     "cancel_raw": ("w_cancel.cpp", ()),
     "cancel_canary": ("w_cancel.cpp", ()),
+    "bulk": ("w_bulk.cpp", ()),
+    "find_if": ("w_bulk.cpp", ()),
 }
 
 PROPS = {
@@ -265,5 +267,27 @@ PROPS = {
                     "cancellable is additionally exercised through the v2 mutex/event and async_pass workloads (C15, C16)."),
         real=["detach_on_cancel", "cancellable + try_complete", "stop_on_request", "canary / watcher / guard", "inplace_stop_source"],
         stub=["harness gates and the nested raw operation", "kit::sim_stop_source", "pthread layer, heap (usim)"],
+    ),
+    "C17": dict(
+        title="Bulk operations visit each index once before completing; find_if is exact",
+        batches=[
+            B("w_bulk.cpp", "bulk", quick=8, thorough=120, oracles=["c17."] + RT_ALL),
+            B("w_bulk.cpp", "find_if", quick=8, thorough=120, oracles=["c17."] + RT_ALL),
+            B("w_bulk.cpp", "find_if", cfg="S17r", quick=5, thorough=60, oracles=["c17."] + RT_ALL),
+            B("w_bulk.cpp", "bulk", cfg="S17r", quick=4, thorough=60, oracles=["c17."] + RT_ALL),
+        ],
+        level_text=("Seeded runs of bulk_join(bulk_transform(bulk_schedule(sched, n), f, policy)) with n drawn from {0, 1, 2, around the "
+                    "cancellation chunk size 15/16/17, 31-33, 47-49, 64, 100, random < 130, 100-1100}, all four execution policies, inline / "
+                    "single_thread_context / static_thread_pool(2) schedulers, and a stop request before start, from inside index k (biased to the "
+                    "last cancellation chunk) or from another thread; and of find_if (seq and par) over an arena block of exactly n ints with red "
+                    "zones, match positions none/one/first/several. Oracles: every index at most once and below n, nothing after or concurrently "
+                    "with the terminal signal, no overlap under non-parallel policies, value completion iff all indices were visited, done only "
+                    "after a stop request; find_if result equals std::find_if and the predicate only sees addresses inside the range (any other "
+                    "dereference also trips the shadow memory)."),
+        level_note=("Honest scope: this property is input-dominated; the simulator contributes the stop-mid-chunk timing, the worker "
+                    "interleavings on the pool and the poisoned/red-zoned memory. indexed_for is not driven."),
+        real=["bulk_schedule, bulk_transform, bulk_join", "find_if (sequential and parallel paths: let_value_with, let_value_with_stop_source, let_done)",
+              "static_thread_pool, single_thread_context, inline_scheduler"],
+        stub=["pthread layer, heap with red zones (usim)"],
     ),
 }
